@@ -204,7 +204,7 @@ func (s *c02Seq) seed() {
 // step performs one derived operation; returns false after a violation.
 func (s *c02Seq) step() bool {
 	r := s.r
-	switch r.Intn(33) {
+	switch r.Intn(35) {
 	case 0, 1, 2, 3:
 		if v := s.pick(isSeqN); v != nil {
 			n := 1 + r.Intn(2)
@@ -383,6 +383,31 @@ func (s *c02Seq) step() bool {
 			return false
 		}
 		return s.effect(fmt.Sprintf("(list (eval %s) (eval %s))", cv.name, cv.name), "eval-quoted-code")
+	case 33, 34:
+		// a value seen through a closure: the closure captured the binding before an inner let of the same scope bound
+		// the same name to an extended value; what the closure returns is still the value it captured
+		if a := s.pick(isSeqN); a != nil {
+			sc := s.scalar()
+			inner := fmt.Sprintf("(let (acc (conj acc %s)) (list (peek) acc))", sc)
+			var expr string
+			switch r.Intn(3) {
+			case 0:
+				expr = fmt.Sprintf("(let (acc %s peek (fn () acc)) %s)", a.name, inner)
+			case 1:
+				expr = fmt.Sprintf("((fn (acc) (let (peek (fn () acc)) %s)) %s)", inner, a.name)
+			default:
+				expr = fmt.Sprintf("(try (throw %s) (catch acc (let (peek (fn () acc)) %s)))", a.name, inner)
+			}
+			if !s.bind(expr, "closure-view", false, a) {
+				return false
+			}
+			got := s.vals[len(s.vals)-1]
+			if got.snap.K == canon.List && len(got.snap.L) == 2 && !canon.Equal(got.snap.L[0], a.snap) {
+				s.c.Violate(fw.Violation{Key: "closure-view-changed", What: fmt.Sprintf("%s: the closure returned %s, it captured %s", expr, canon.Render(got.snap.L[0]), canon.Render(a.snap)), Input: strings.Join(s.log, "\n")})
+				return false
+			}
+			return true
+		}
 	case 27:
 		// nesting: a value stored inside another collection
 		if a := s.pick(isCollN); a != nil {
